@@ -21,6 +21,12 @@ structure FinOK (p : Pool) : Prop where
          (o = .ok ∧ r.remaining = 0 ∧ r.items = []) ∨ (r.kind = .map ∧ o = .exc (.user 4))
   /-- `map` rejects `num_concurrent < 1` (the ghost `nc` is the initial value of the call's own semaphore) -/
   nc1 : ∀ (m : Nat) (r : Req), p.reqs[m]? = some r → r.kind = .map → 1 ≤ r.nc
+  /-- needed for `ok` to be inductive: an apply-style request has no argument iterator … -/
+  ka : ∀ (m : Nat) (r : Req), p.reqs[m]? = some r → r.kind = .apply → r.items = []
+  /-- … a map-style request no invocation counter … -/
+  km : ∀ (m : Nat) (r : Req), p.reqs[m]? = some r → r.kind = .map → r.remaining = 0
+  /-- … and only a map-style request waits for a call's own semaphore (`_arg_consumer` resumes from there) -/
+  kw : ∀ (m : Nat) (r : Req), p.reqs[m]? = some r → r.frame = .waitMapSem → r.kind = .map
 
 /-- the invariant that is lifted: `Want` (needed for "a spawner with an outcome is never stepped again") and `FinOK` -/
 def WantFin (p : Pool) : Prop := Want p ∧ FinOK p
